@@ -205,6 +205,8 @@ func (d *c16Doubler) Close() error { return d.src.Close() }
 
 func c16Custom(id int) func(io.ReadCloser) (io.ReadCloser, error) {
 	switch id {
+	case -1:
+		return nil // WithDecoder(key, nil): the only remaining way to have a nil func in the decoder map
 	case 0:
 		return func(b io.ReadCloser) (io.ReadCloser, error) { return b, nil }
 	case 1:
@@ -522,6 +524,16 @@ func (cs *c16Case) enabled() []string {
 	return cs.algs
 }
 
+// the custom decoder registered LAST under k is a nil func
+func (cs *c16Case) isNilCustom(k string) bool {
+	for i := len(cs.custom) - 1; i >= 0; i-- {
+		if cs.custom[i].key == k {
+			return cs.custom[i].id < 0
+		}
+	}
+	return false
+}
+
 func (cs *c16Case) isCustom(k string) bool {
 	for _, kv := range cs.custom {
 		if kv.key == k {
@@ -575,10 +587,16 @@ func c16Oracle(out *vOut, cs *c16Case, term string) {
 		}
 	}
 	// not enabled: rejected with a client error before the handler runs
-	if !c16In(enc, cs.enabled()) && !cs.isCustom(enc) {
+	// (an encoding is enabled when the enabled list names it AND it is one with a decoder, or when a
+	// custom decoder is registered for it)
+	if !(c16In(enc, cs.enabled()) && c16In(enc, c16DefaultAlgs)) && !cs.isCustom(enc) {
 		if cs.ran || cs.kind != 1 || cs.status < 400 || cs.status > 499 {
-			fail("unsupported-not-rejected", "encoding %q is not enabled but the request was not rejected with 4xx before the handler", enc)
+			fail("unsupported-not-rejected", "encoding %q is not enabled (or has no decoder) but the request was not rejected with 4xx before the handler", enc)
 		}
+	}
+	// no request may make the server panic (except through a custom decoder registered as a nil func)
+	if cs.kind == 2 && !cs.isNilCustom(enc) {
+		fail("server-panic", "ServeHTTP panicked for encoding %q", enc)
 	}
 	// the limit, after decompression
 	if cs.ran && int64(len(cs.data)) > L {
@@ -619,7 +637,11 @@ func (cs *c16Case) cfgTerms() (algs, custom string) {
 	}
 	it := []string{}
 	for _, kv := range cs.custom {
-		it = append(it, vPair(vStr(kv.key), vN(uint64(kv.id))))
+		id := "None"
+		if kv.id >= 0 {
+			id = "(Some " + vN(uint64(kv.id)) + ")"
+		}
+		it = append(it, vPair(vStr(kv.key), id))
 	}
 	return algs, vList(it)
 }
@@ -786,7 +808,7 @@ func c16Level(r *vRand, typ string) int {
 	}
 }
 
-var c16OtherNames = []string{"GZIP", "br", "identity", "none", "x-gzip", "gzip, zstd", "compress", "Snappy", "deflate", "zlib", "gzip", "zstd", "snappy", "lz4", "x-id", "x-dbl", "x-nil", "x-err"}
+var c16OtherNames = []string{"x-nilfunc", "GZIP", "br", "identity", "none", "x-gzip", "gzip, zstd", "compress", "Snappy", "deflate", "zlib", "gzip", "zstd", "snappy", "lz4", "x-id", "x-dbl", "x-nil", "x-err"}
 
 func c16Algs(r *vRand, cs *c16Case) {
 	switch r.Pick(40, 10, 35, 10, 5) {
@@ -834,6 +856,9 @@ func c16CustomGen(r *vRand, cs *c16Case, p int) {
 			id = 2
 		case "x-dbl":
 			id = 3
+		}
+		if r.Pick(88, 12) == 1 {
+			key, id = []string{"x-nilfunc", "x-nilfunc", "gzip", "br"}[r.Intn(4)], -1
 		}
 		cs.custom = append(cs.custom, c16KV{key, id})
 	}
@@ -1266,7 +1291,7 @@ func TestVerifC16(t *testing.T) {
 	nl := vBudget(72, 5)
 	emit := func(cs *c16Case) {
 		c16Run(t, cs)
-		term := cs.term()
+		term := "(" + cs.term() + ")" // parenthesised: the driver also evaluates `model_out <term>`
 		nontrivial := cs.clientOK && (cs.kind != 0 || len(cs.wce) > 0 || len(cs.wbody) > 0)
 		out.Case(nontrivial, term)
 		oterm := term
@@ -1341,13 +1366,15 @@ func TestVerifC16(t *testing.T) {
 			}
 		case 1:
 			out.Stat(fmt.Sprintf("outcome.rejected.%d", cs.status), 1)
-			if c16In(c16First(cs.wce), cs.enabled()) || cs.isCustom(c16First(cs.wce)) {
+			if e := c16First(cs.wce); c16In(e, cs.enabled()) && !c16In(e, c16DefaultAlgs) && !cs.isCustom(e) {
+				out.Stat("branch.rejected-enabled-name-without-decoder", 1)
+			} else if c16In(e, cs.enabled()) || cs.isCustom(e) {
 				out.Stat("branch.rejected-decoder-init-error", 1)
 			} else {
 				out.Stat("branch.rejected-unsupported", 1)
 			}
 		default:
-			out.Stat("outcome.panicked", 1)
+			out.Stat("outcome.panicked-nil-custom-decoder", 1)
 		}
 		if int64(len(cs.wbody)) > cs.effMax() {
 			out.Stat("size.wire-over-limit", 1)
@@ -1364,7 +1391,7 @@ func TestVerifC16(t *testing.T) {
 		out.Stat("wire-encoding."+c16First(cs.wce), 1)
 		for i := len(cs.custom) - 1; i >= 0; i-- {
 			if cs.custom[i].key == c16First(cs.wce) {
-				out.Stat(fmt.Sprintf("branch.custom-decoder-%d", cs.custom[i].id), 1)
+				out.Stat(fmt.Sprintf("branch.custom-decoder-%d", cs.custom[i].id), 1) // -1 = nil func
 				break
 			}
 		}
